@@ -102,6 +102,7 @@ inductive CDeclT
 inductive FDeclT
   | fixed (d : DummyF)
   | fType (value : Bool)
+  | fixedDim (base : FBase) (value : Bool)   -- `type(C_PTR), intent(IN) :: {c_var}{f_c_dimension}`
   deriving DecidableEq, Repr
 
 /-- everything `build_proto_list` / `build_arg_list_interface` read from one `ast` and its typemap -/
@@ -137,6 +138,7 @@ def cdeclOf (a : Arg) : CDeclT → ParamC
 def fdeclOf (a : Arg) : FDeclT → DummyF
   | .fixed d => d
   | .fType v => ⟨a.ftbase, v, a.fcDim⟩
+  | .fixedDim b v => ⟨b, v, a.fcDim⟩
 
 /-- `gen_arg_as_c`: a function pointer prints `ret (*name)(...)`, otherwise type + declarator -/
 def argC (a : Arg) : ParamC :=
@@ -204,15 +206,22 @@ def valueDefault (a : Arg) : Bool :=
   else if a.value then a.ptr == 1 && a.cbase == .void && a.fbase == .cptr
   else true
 
+/-- a C base type a typemap can name (not a descriptor, not a function pointer) -/
+def ordinary : CBase → Bool
+  | .cdesc => false
+  | .funptr => false
+  | _ => true
+
 /-- one argument is consistent: its typemap row is (table theorem `typemap_rows_ok`), `value`
     follows the declarator, assumed-type and rank attributes sit on pointers, and a by-value
     argument is not declared as an array -/
 def argOK (a : Arg) : Bool :=
   if a.funptr then !a.assumedtype
-  else if a.assumedtype then a.ptr == 1
-  else if a.ptr > 1 then !a.value
-  else valueDefault a && (baseMatch a.cbase a.fbase || (a.ptr == 1 && a.cbase == .void))
-       && (a.value → !a.farray)
+  else if a.assumedtype then a.ptr == 1 && ordinary a.cbase
+  else if a.ptr > 1 then ordinary a.cbase
+  else valueDefault a
+       && (baseMatch a.cbase a.fbase || (a.ptr == 1 && a.cbase == .void && a.fbase == .cptr))
+       && (!a.value || !a.farray)
 
 def shadowOK (a : Arg) : Bool := baseMatch a.scbase a.sfbase
 
